@@ -108,6 +108,62 @@ def builders(model):
             I, 'L2NormSquared', NSpace((2,), 'float64', S('w'))), inst(
                 I, 'KullbackLeibler', NSpace((2,), 'float64', S('w')))),
         [S('e0'), -S('e1'), S('e2'), 2 * S('e3')])
+    # ---- norms and the indicators of their dual unit balls -----------------
+    inf = Opaque('np.inf')
+    zero = Rat.const(0)
+    for w, t in ((None, 'unweighted'), (Rat.const(4), 'weight 4')):
+        def sp(w=w):
+            return NSpace((4,), 'float64', w)
+        a = 1 if w is None else 2          # sqrt of the weight
+        B['LpNorm[p=inf,%s]' % t] = (
+            lambda I, sp=sp: inst(I, 'LpNorm', sp(), inf),
+            [5 * sig, -4 * sig, sig, zero])
+        B['L2Norm[%s, ||x|| = 5 sigma]' % t] = (
+            lambda I, sp=sp: inst(I, 'L2Norm', sp()),
+            [3 * sig / a, -4 * sig / a, zero, zero])
+        for e, et, pt in ((1, '1', [Rat.const(2), Rat.const(-1),
+                                    Rat.const(1) / 4, zero]),
+                          (2, '2', [Rat.const(3) / a, Rat.const(-4) / a,
+                                    zero, zero]),
+                          (inf, 'inf', [Rat.const(3), Rat.const(-4),
+                                        Rat.const(1) / 2, zero])):
+            B['IndicatorLpUnitBall[p=%s,%s]' % (et, t)] = (
+                lambda I, sp=sp, e=e: inst(I, 'IndicatorLpUnitBall', sp(),
+                                           e),
+                pt)
+        B['IndicatorBox[-1, 2,%s]' % t] = (
+            lambda I, sp=sp: inst(I, 'IndicatorBox', sp(), -1, 2),
+            [Rat.const(3), Rat.const(-2), Rat.const(1) / 2, zero])
+    for wt, t in ((None, 'pspace'), ([Rat.const(4), Rat.const(9)],
+                                     'pspace weights 4, 9')):
+        def ps(wt=wt):
+            return NPSpace([NSpace((2,), 'float64'),
+                            NSpace((2,), 'float64')], wt)
+        a0, a1 = (1, 1) if wt is None else (2, 3)
+        B['GroupL1Norm[%s]' % t] = (
+            lambda I, ps=ps: inst(I, 'GroupL1Norm', ps()),
+            [3 * sig / a0, sig / (4 * a0), 4 * sig / a1, sig / (4 * a1)])
+        B['IndicatorGroupL1UnitBall[p=2,%s]' % t] = (
+            lambda I, ps=ps: inst(I, 'IndicatorGroupL1UnitBall', ps()),
+            [Rat.const(3) / a0, Rat.const(1) / (4 * a0), Rat.const(4) / a1,
+             zero])
+        B['Huber[%s, gamma = sigma / 2]' % t] = (
+            lambda I, ps=ps: inst(I, 'Huber', ps(), sig / 2),
+            [3 * sig / a0, sig / (4 * a0), 4 * sig / a1, sig / a1])
+
+    def mat():
+        def col():
+            return NPSpace([NSpace((1,), 'float64'),
+                            NSpace((1,), 'float64')])
+        return NPSpace([col(), col()])
+    for e, et in ((1, '1'), (2, '2'), (inf, 'inf')):
+        B['NuclearNorm[singular exp %s]' % et] = (
+            lambda I, e=e: inst(I, 'NuclearNorm', mat(), 1, e),
+            [sig * Rat.const(c) / 65 for c in (204, 84, -28, 237)])
+        B['IndicatorNuclearNormUnitBall[singular exp %s]' % et] = (
+            lambda I, e=e: inst(I, 'IndicatorNuclearNormUnitBall', mat(),
+                                inf, e),
+            [Rat.const(c) / 65 for c in (204, 84, -28, 237)])
     return B
 
 
@@ -143,11 +199,20 @@ def evaluate(model, build, entries, moreau=True):
     except PyRaise as e:
         res['skipped'].append('convex_conj raises %s' % e.name)
         return res
-    fx = PA.ired(to_rat(fx))
+    outside = isinstance(fx, Opaque) and fx.desc == 'np.inf'
+    if not outside:
+        fx = PA.ired(to_rat(fx))
     # (a) Fenchel-Young equality at the gradient
-    G, _ = partials_at(H, I, f, dom, xs)
-    if any(v.startswith('sfree') for g in G for v in g.vars()
-           if isinstance(v, str)):
+    G = None
+    if outside:
+        res['skipped'].append('Fenchel-Young: f(x) = inf at the designated '
+                              'point')
+    else:
+        G, _ = partials_at(H, I, f, dom, xs)
+    if G is None:
+        pass
+    elif any(v.startswith('sfree') for g in G for v in g.vars()
+             if isinstance(v, str)):
         res['skipped'].append('Fenchel-Young: x sits at a kink')
     else:
         g = [PA.reduce_full(Gj / wj) for Gj, wj in zip(G, ws)]
@@ -166,6 +231,33 @@ def evaluate(model, build, entries, moreau=True):
                         'Fenchel-Young at y = grad f(x): f(x) + f*(y) = %s '
                         'but <x, y> = %s' % (_s(PA.reduce_full(lhs)),
                                              _s(PA.reduce_full(rhs))))
+            # (a2) the inequality f(x) + f*(y) >= <x, y> away from the
+            # gradient: y = g / 2 and y = 2 g
+            for fac, ft in ((Rat.const(1) / 2, 'g / 2'), (Rat.const(2),
+                                                         '2 g')):
+                y = [PA.reduce_full(fac * gj) for gj in g]
+                fy_ = I.call(fc, [_mk(dom, y)], {})
+                if not _finite(fy_):
+                    continue               # + inf: nothing to show
+                gap = fx + PA.ired(to_rat(fy_))
+                for xj, yj, wj in zip(xs, y, ws):
+                    gap = gap - wj * xj * yj
+                sg = PA.full_sign(gap, H.signs)
+                if sg is None:
+                    vals = []
+                    try:
+                        vals = [PA.num_eval(gap, env) for env in WIT]
+                    except Undecided:
+                        pass
+                    if vals and min(vals) < -1e-9 * max(1.0, max(
+                            abs(v) for v in vals)):
+                        sg = -1
+                if sg is not None and sg < 0:
+                    res['probs'].append(
+                        'Fenchel-Young inequality fails at y = %s: f(x) + '
+                        'f*(y) - <x, y> = %s' % (ft, _s(PA.reduce_full(gap))))
+                elif sg is not None:
+                    res['ineq'] = res.get('ineq', 0) + 1
         except PyRaise as e:
             if e.name == 'NotImplementedError':
                 res['skipped'].append('f* cannot be evaluated')
@@ -175,7 +267,10 @@ def evaluate(model, build, entries, moreau=True):
     try:
         fcc = I.getattr_value(fc, 'convex_conj')
         v = I.call(fcc, [_mk(dom, entries)], {})
-        if not _finite(v):
+        if outside:
+            if not (isinstance(v, Opaque) and v.desc == 'np.inf'):
+                res['probs'].append('f(x) = inf but f**(x) = %r' % (v,))
+        elif not _finite(v):
             res['probs'].append('f**(x) = %r' % (v,))
         elif not PA.same(PA.ired(to_rat(v)), fx, WIT):
             res['probs'].append('f**(x) = %s but f(x) = %s' % (
@@ -233,7 +328,7 @@ def run(rep, model):
                 e.name, ast.unparse(e.node)[:70] if e.node is not None
                 else '?'), rel, getattr(e.node, 'lineno', None))
             continue
-        nclauses += 3 - len(r['skipped'])
+        nclauses += 3 - len(r['skipped']) + r.get('ineq', 0)
         if r['probs']:
             rep.violation('R5', name, '; '.join(r['probs'][:2]), rel, line)
         else:
@@ -241,5 +336,5 @@ def run(rep, model):
                       'biconjugate, Moreau%s' % (
                           ' (skipped: %s)' % '; '.join(r['skipped'])
                           if r['skipped'] else ''))
-    rep.floor('R5', 'evaluated conjugate instances', n, 40)
-    rep.floor('R5', 'decided clauses', nclauses, 60)
+    rep.floor('R5', 'evaluated conjugate instances', n, 70)
+    rep.floor('R5', 'decided clauses', nclauses, 200)
